@@ -70,17 +70,15 @@ func init() {
 			More: []edit{{File: pp, Old: "p.PeekToken.LeadingComments...)\n\t\t}\n\t\treturn true", New: "p.PeekToken.LeadingComments...)\n\t\t}\n\t\tp.NextToken()\n\t\treturn true"}},
 			Rule: "R6.6", Construct: "consumes the ';'"},
 		variant{Prop: "C01", Name: "integer-literal-bare-before-dot", File: aa,
-			Old:  "\tif integerObject {\n\t\tcw.WriteRune('(')\n\t}\n\tme.Object.WriteTo(cw)\n\tif integerObject {\n\t\tcw.WriteRune(')')\n\t}\n",
-			New:  "\tme.Object.WriteTo(cw)\n\t_ = integerObject\n",
+			Old:  "\t\tif _, integerObject := me.Object.(*IntegerLiteral); integerObject {\n\t\t\t// `1.x` is read as the number \"1.\" followed by x: the dot keeps apart from an integer literal\n\t\t\tcw.WriteRune(' ')\n\t\t}\n",
+			New:  "",
 			Rule: "R1.6", Construct: "'.' written behind Object"},
-		variant{Prop: "C01", Name: "parentheses-on-the-wrong-type-test", File: aa,
-			Old:  "_, integerObject := me.Object.(*IntegerLiteral)",
-			New:  "_, integerObject := me.Object.(*FloatLiteral)",
+		variant{Prop: "C01", Name: "blank-on-the-wrong-type-test", File: aa,
+			Old:  "if _, integerObject := me.Object.(*IntegerLiteral); integerObject {",
+			New:  "if _, integerObject := me.Object.(*FloatLiteral); integerObject {",
 			Rule: "R1.6", Construct: "'.' written behind Object"},
-		variant{Prop: "C01", Name: "benign-integer-test-inverted-form", File: aa,
-			Old:    "\tif integerObject {\n\t\tcw.WriteRune('(')\n\t}\n\tme.Object.WriteTo(cw)\n\tif integerObject {\n\t\tcw.WriteRune(')')\n\t}\n",
-			New:    "\tif !integerObject {\n\t\tme.Object.WriteTo(cw)\n\t} else {\n\t\tcw.WriteRune('(')\n\t\tme.Object.WriteTo(cw)\n\t\tcw.WriteRune(')')\n\t}\n",
-			Benign: true},
+		variant{Prop: "C01", Name: "benign-blank-written-as-a-string", File: aa,
+			Old: "\t\t\tcw.WriteRune(' ')\n\t\t}\n\t\tcw.AddMapping(me.Token.Start)", New: "\t\t\tcw.WriteString(\" \")\n\t\t}\n\t\tcw.AddMapping(me.Token.Start)", Benign: true},
 	)
 }
 
